@@ -10,7 +10,7 @@ Open Scope N_scope.
    entry replaced by e + d, exactly (integers), tables and entries in the same order *)
 Theorem C01_offsets_shifted : forall (p : bytes) (kids : list node) (ts : list (N * list N)) (d : Z)
                                      (kids' : list node) (u : list unit),
-  moov_check p = Ok kids -> co_tables p = Some ts -> (- 2 ^ 31 < d < 2 ^ 31)%Z ->
+  moov_check p = Ok kids -> co_tables p = Some ts -> (- 2 ^ 31 <= d < 2 ^ 31)%Z ->
   each_trak kids (shift_table (shift_entry 32 d) (shift_entry 64 d)) = Ok (kids', u) ->
   exists ts', co_tables (put_nodes kids') = Some ts' /\ shift_all d ts = Some ts' /\ shifted_by d ts ts'.
 Proof. exact offsets_shifted. Qed.
@@ -18,7 +18,7 @@ Print Assumptions C01_offsets_shifted.
 
 (* number, order, entry width, position and entry count of the tables are unchanged, and so is the payload length *)
 Theorem C01_shape_preserved : forall (p : bytes) (kids : list node) (d : Z) (kids' : list node) (u : list unit),
-  moov_check p = Ok kids -> (- 2 ^ 31 < d < 2 ^ 31)%Z ->
+  moov_check p = Ok kids -> (- 2 ^ 31 <= d < 2 ^ 31)%Z ->
   each_trak kids (shift_table (shift_entry 32 d) (shift_entry 64 d)) = Ok (kids', u) ->
   co_regions (put_nodes kids') = co_regions p /\ co_regions p <> None /\ blen (put_nodes kids') = blen p.
 Proof. exact shape_preserved_regions. Qed.
@@ -27,7 +27,7 @@ Print Assumptions C01_shape_preserved.
 (* if some entry of some table would leave its field (e + d < 0 or e + d >= 2^(8 width)) the rewrite is refused
    with InvalidInput ... *)
 Theorem C01_overflow_rejected : forall (p : bytes) (kids : list node) (ts : list (N * list N)) (d : Z),
-  moov_check p = Ok kids -> co_tables p = Some ts -> (- 2 ^ 31 < d < 2 ^ 31)%Z ->
+  moov_check p = Ok kids -> co_tables p = Some ts -> (- 2 ^ 31 <= d < 2 ^ 31)%Z ->
   (exists t e, In t ts /\ In e (snd t) /\ shift (fst t) d e = None) ->
   each_trak kids (shift_table (shift_entry 32 d) (shift_entry 64 d)) = EParse InvalidInput.
 Proof. exact overflow_rejected. Qed.
@@ -35,7 +35,7 @@ Print Assumptions C01_overflow_rejected.
 
 (* ... and that is the only reason for a refusal *)
 Theorem C01_rejected_only_on_overflow : forall (p : bytes) (kids : list node) (ts : list (N * list N)) (d : Z),
-  moov_check p = Ok kids -> co_tables p = Some ts -> (- 2 ^ 31 < d < 2 ^ 31)%Z ->
+  moov_check p = Ok kids -> co_tables p = Some ts -> (- 2 ^ 31 <= d < 2 ^ 31)%Z ->
   is_ok (each_trak kids (shift_table (shift_entry 32 d) (shift_entry 64 d))) = false ->
   exists t e, In t ts /\ In e (snd t) /\ shift (fst t) d e = None.
 Proof. exact rejected_only_on_overflow. Qed.
